@@ -37,3 +37,14 @@ package marching
 //@     invariant d != nil && !held(d.chunkMutex)
 //@   loop 3:
 //@     invariant d != nil && !held(d.chunkMutex)
+
+// The producer loop of AddFieldParallel runs while the workers are already appending chunks: it must not touch
+// (or copy) the chunk tables either.
+//@ func MarchingCanvas.AddFieldParallel
+//@   props C10
+//@   modifies *
+//@   requires d != nil && d.chunkMutex != nil && !held(d.chunkMutex)
+//@   guardedfields d.chunkMutex: float1Data, float2Data, float3Data
+//@   unclaimed safe.index: not part of the lock discipline
+//@   unclaimed safe.nilmap: not part of the lock discipline
+//@   unclaimed safe.slicebounds: not part of the lock discipline
